@@ -26,11 +26,15 @@ CHECKS = {
              "(0..250 candidates from attributes, blocks, label values, targets, functions, hooks): TraceSnip decides limit, completeness and hook rules.",
         ref="DESIGN.md 5/C06", technique="TLC trace validation (Session.tla) + TLC model checking of Snippet.tla with replay of TLC-generated cases + TraceSnip (StopsOK, limit/completeness)"),
     "C12": dict(
-        text="Trace validation of every hover result of the session histories: non-empty content and a well-formed range containing the cursor.",
-        ref="DESIGN.md 5/C12", technique="TLC trace validation (Session.tla predicate HoverOK) of recorded hovers"),
+        text="(1) Trace validation of every hover of the typing histories: non-empty content, well-formed range containing the cursor (Session.tla). (2) Exact part inside values: "
+             "for every (constraint, expression) case of MC_Expr the real hover is asked at every leaf; TraceExpr requires the range to be exactly the extent of the leaf when "
+             "ExprRules says the schema can interpret it (same operator that defines the tokens), nothing or an enclosing element otherwise; references name their declaration.",
+        ref="DESIGN.md 5/C12", technique="TLC trace validation (Session.tla) + TLC model checking of ExprRules.tla with replay of TLC-generated cases + TraceExpr (HoverViol)"),
     "C13": dict(
-        text="Trace validation of the semantic tokens of every buffer state (valid and broken): sorted, pairwise disjoint, non-empty, advertised types.",
-        ref="DESIGN.md 5/C13", technique="TLC trace validation (Session.tla predicate TokensOK) of recorded token lists"),
+        text="(1) Trace validation of the tokens of every buffer state (valid and broken): sorted, pairwise disjoint, non-empty, advertised types. (2) Exact part inside values: "
+             "ExprRules!TokensP(constraint, expression) gives the schema-known elements (literals, keywords, type names, object/map keys, known function names, steps of references that "
+             "resolve to a declared target); TraceExpr compares the real tokens inside the value with it as sets of (type, exact extent) for every case of MC_Expr.",
+        ref="DESIGN.md 5/C13", technique="TLC trace validation (Session.tla) + TLC model checking of ExprRules.tla with replay of TLC-generated cases + TraceExpr (TokenViol)"),
     "C14": dict(
         text="Trace validation of the symbol tree of every buffer state: children inside parents, siblings in source order.",
         ref="DESIGN.md 5/C14", technique="TLC trace validation (Session.tla predicates on symbol trees)"),
